@@ -328,6 +328,11 @@ class Memory():
         # Workaround until we secure the uplink and change messages for
         # mems to non-blocking
         self._write_requests_lock.acquire()
+        if self.cf.link is None:
+            # The request could never be sent, completed or failed
+            self._write_requests_lock.release()
+            logger.warning('Cannot write to memory id {}, not connected'.format(memory.id))
+            return False
         # Use one reference to the queue, the table of queues is replaced
         # when the Crazyflie is disconnected
         requests = self._write_requests.setdefault(memory.id, [])
@@ -350,6 +355,12 @@ class Memory():
 
         rreq = _ReadRequest(memory, addr, length, self.cf)
         self._read_requests[memory.id] = rreq
+
+        if self.cf.link is None:
+            # The request could never be sent, completed or failed
+            self._read_requests.pop(memory.id, None)
+            logger.warning('Cannot read from memory id {}, not connected'.format(memory.id))
+            return False
 
         rreq.start()
 
